@@ -201,6 +201,35 @@ Theorem reader_total_faults_uniprobe : forall A parse_f32 es,
   (forall c k, aindex A c = Some k -> k < aK A) -> wf_estream es -> Holds_c15 (uniprobe_read_e A parse_f32 es).
 Proof. intros A parse_f32 es HA. exact (uniprobe_read_e_total A HA parse_f32 es). Qed.
 
+(* the polling consumer extends the stop-at-first-error consumer: its outcomes up to and including the
+   first one that is not a record are exactly those of *_read_e (the functions of reader_total_faults_*,
+   and through fault_free_agree_* of the C14 round-trip theorems) *)
+Theorem polls_extend_read_jaspar : forall n caps es, wf_estream es ->
+  length (jaspar_read_e caps es) <= n ->
+  firstn (length (jaspar_read_e caps es)) (jaspar_polls_e n caps es) = jaspar_read_e caps es.
+Proof.
+  intros n caps es H Hn. pose proof (reader_total_faults_jaspar caps es H) as T.
+  apply holds_c15_no_fuel in T. exact (j_run_polls_prefix _ _ _ caps 0 _ n T Hn).
+Qed.
+
+Theorem polls_extend_read_jaspar16 : forall A n caps es,
+  (forall c k, aindex A c = Some k -> k < aK A) -> wf_estream es ->
+  length (jaspar16_read_e A caps es) <= n ->
+  firstn (length (jaspar16_read_e A caps es)) (jaspar16_polls_e A n caps es) = jaspar16_read_e A caps es.
+Proof.
+  intros A n caps es HA H Hn. pose proof (reader_total_faults_jaspar16 A caps es HA H) as T.
+  apply holds_c15_no_fuel in T. exact (j_run_polls_prefix _ _ _ caps 0 _ n T Hn).
+Qed.
+
+Theorem polls_extend_read_uniprobe : forall A parse_f32 n es,
+  (forall c k, aindex A c = Some k -> k < aK A) -> wf_estream es ->
+  length (uniprobe_read_e A parse_f32 es) <= n ->
+  firstn (length (uniprobe_read_e A parse_f32 es)) (uniprobe_polls_e A parse_f32 n es) = uniprobe_read_e A parse_f32 es.
+Proof.
+  intros A parse_f32 n es HA H Hn. pose proof (reader_total_faults_uniprobe A parse_f32 es HA H) as T.
+  apply holds_c15_no_fuel in T. exact (u_run_polls_prefix A parse_f32 _ _ _ n T Hn).
+Qed.
+
 (* on streams without error events the event-stream readers ARE the readers of the C14 theorems *)
 Theorem fault_free_agree_jaspar : forall caps s, wf_stream s -> jaspar_read_e caps (of_stream s) = jaspar_read caps s.
 Proof. exact jaspar_read_e_of_stream. Qed.
@@ -260,6 +289,28 @@ Proof. vm_compute. reflexivity. Qed.
 (* UniPROBE: a failed read_line keeps what it appended (valid UTF-8): the name "ID" survives the error *)
 Example polls_uniprobe_io_error :
   uniprobe_polls_e Dna (fun _ => None) 3 [EvData [73;68]%N; EvErr false; EvData [10]%N] = [Err EIo; Err EInvalid; Ok None].
+Proof. vm_compute. reflexivity. Qed.
+
+(* AS CODED, outside C14 / C15 (observation O-IO1 of notes/io.md): JASPAR 2016, an I/O error in the middle of a
+   record (">x\nA [1 2]\nC [3 4]\nG [5 6]\nT [7 8]\n", fill_buf fails after 17 bytes): the next request reads the
+   remaining n = 18 bytes and slices `start..=start + n` of a buffer that already held 17 pending bytes, i.e. the
+   first 19 bytes ">x\nA [1 2]\nC [3 4]\n": a complete record of the grammar -- the truncated record x (columns
+   A and C only) is returned, then the rest is a sticky parse error *)
+Example polls_truncated_record_after_io_error :
+  let f := [62;120;10; 65;32;91;49;32;50;93;10; 67;32;91;51;32;52;93;10; 71;32;91;53;32;54;93;10; 84;32;91;55;32;56;93;10]%N in
+  jaspar16_polls_e Dna 4 (fun _ => 0) [EvData (firstn 1 f); EvData (firstn 16 (skipn 1 f)); EvErr false; EvData (skipn 17 f)]
+  = [Err EIo; Ok (Some {| rid := [120%N]; rdesc := None; rmatrix := [[1;3;0;0;0]; [2;4;0;0;0]]%N |}); Err ENom; Err ENom].
+Proof. vm_compute. reflexivity. Qed.
+
+(* UniPROBE, std's read_line on invalid UTF-8: the bytes of the line are consumed, the String is unchanged, the
+   call fails (InvalidData): "\xff\nID\n" gives an I/O error, then the header-only record ID (invalid data), then End *)
+Example polls_uniprobe_invalid_utf8_line :
+  uniprobe_polls_e Dna (fun _ => None) 4 [EvData [255;10;73;68;10]%N] = [Err EIo; Err EInvalid; Ok None; Ok None].
+Proof. vm_compute. reflexivity. Qed.
+
+(* ... and in the column loop the error is returned after the name has been consumed: the record is lost *)
+Example polls_uniprobe_error_in_columns :
+  uniprobe_polls_e Dna (fun _ => None) 4 [EvData [73]%N; EvErr false; EvData [68;10;255;10]%N] = [Err EIo; Err EIo; Ok None; Ok None].
 Proof. vm_compute. reflexivity. Qed.
 
 (* ---------- the source still has the statement skeleton the models were written for ----------
